@@ -387,7 +387,10 @@ class StateScenario(Scenario):
             rec.log("cmdline", "no-parser")
             return
         try:
-            ns = parser.parse_args(list(op["argv"]))
+            import contextlib
+            import io
+            with contextlib.redirect_stderr(io.StringIO()):
+                ns = parser.parse_args(list(op["argv"]))
         except SystemExit:
             rec.log("cmdline", "usage")
             return
@@ -795,6 +798,11 @@ class StateScenario(Scenario):
             _, err = self._call(lambda: asdict(cfg, virtual=True))
         else:
             _, err = self._call(lambda: cfg.validate(collect_errors=True))
+        for f in st.sd["root"]["fields"]:
+            if f["kind"] == "method":
+                r, e = self._call(lambda: getattr(cfg, f["key"])(1, 2))
+                if e is None and r != ("method", 2, type(cfg).__name__):
+                    rec.fail("%s/frame" % self.prop, "%s/instance-method-not-bound-to-its-configuration" % self.prop, "instance method returned %r" % (r,))
         rec.log("render", how, type(err).__name__ if err else "ok")
         if self.prop in ("C01", "C12", "C13"):
             rec.check()
